@@ -485,7 +485,8 @@ class Writer:
         tr = self.table_ref(doc, ti)
         if len(cols) == 1 and self.rng.random() < 0.9:
             return tr + '.' + self.ident(cols[0])
-        return tr + '.(' + (',' + self.sp()).join(self.ident(c) for c in cols) + ')'
+        pad = '' if self.k['spaces'] == 'one' or self.rng.random() < 0.6 else ' '       # `t.( a, b )`
+        return tr + '.(' + pad + (',' + self.sp()).join(self.ident(c) for c in cols) + pad + ')'
 
     def ref(self, doc, r):
         tail = self.place_comment('top', r.comment)
